@@ -4,7 +4,9 @@
 //	CASE <mode> <n> <hex text> [<k> <start offset of definition k> <operator>]
 //	X DEF ... / X SIG ...      expected definitions (what the text denotes; c12a: the first k of them)
 //	A DEF ... / A SIG ...      Defs() of the implementation
-//	OUT ok|err <l>:<c>:<o>|panic|hang  same|diff     outcome of Parse(); all 5 runs on these bytes identical?
+//	OUT ok|err <l>:<c>:<o>|panic|hang  same|diff|diff-error-text:<hex>:<hex>
+//	                                                   outcome of Parse(); all 5 runs on these bytes identical
+//	                                                   (kind, position, Error()/Reason() text, Defs())?
 //	COV <kind>                                         a feature of the generated file (counted in the evidence)
 //
 // preceded by the classification of non-ASCII runes (UNI L|D <lo> <hi>, from unicode.IsLetter /
@@ -45,6 +47,7 @@ type result struct {
 	kind string
 	pos  scanner.Position
 	dump string
+	msg  string // err: Error() and Reason() of the returned error (compared between the repetitions only)
 }
 
 func dumpDefs(defs []dbc.Def) (s string) {
@@ -77,14 +80,16 @@ func parseRun(data []byte) (res result) {
 	} else {
 		res.kind = "err"
 		res.pos = err.Position()
+		res.msg = err.Error() + "\x00" + err.Reason()
 	}
 	res.dump = dumpDefs(p.Defs())
 	return res
 }
 
 // parseRuns runs of fresh parsers on the same bytes, each under a 2 s timeout: the result of the first
-// run and whether every later run gave the same outcome kind, error position and Defs()
-func parseAll(data []byte) (result, bool) {
+// run and whether every later run gave the same outcome kind, error position, error text and Defs()
+// ("same" | "diff" | "diff-error-text:<hex of the first text>:<hex of the other>")
+func parseAll(data []byte) (result, string) {
 	ch := make(chan result, parseRuns)
 	go func() {
 		for i := 0; i < parseRuns; i++ {
@@ -94,7 +99,17 @@ func parseAll(data []byte) (result, bool) {
 	timer := time.NewTimer(2 * time.Second)
 	defer timer.Stop()
 	var first result
-	same := true
+	same := "same"
+	note := func(r result) {
+		switch {
+		case r == first || same != "same":
+		case r.kind == first.kind && r.pos == first.pos && r.dump == first.dump:
+			// only the text of the error (Error() / Reason()) differs: both texts are part of the observation
+			same = "diff-error-text:" + hex.EncodeToString([]byte(first.msg)) + ":" + hex.EncodeToString([]byte(r.msg))
+		default:
+			same = "diff"
+		}
+	}
 	for i := 0; i < parseRuns; i++ {
 		if i > 0 {
 			if !timer.Stop() {
@@ -109,8 +124,8 @@ func parseAll(data []byte) (result, bool) {
 		case r := <-ch:
 			if i == 0 {
 				first = r
-			} else if r != first {
-				same = false
+			} else {
+				note(r)
 			}
 		case <-timer.C:
 			// not finished within 2 s. On a machine that is stalled by other load this can happen to a run
@@ -119,8 +134,8 @@ func parseAll(data []byte) (result, bool) {
 			case r := <-ch:
 				if i == 0 {
 					first = r
-				} else if r != first {
-					same = false
+				} else {
+					note(r)
 				}
 				timer.Reset(2 * time.Second)
 				continue
@@ -128,9 +143,9 @@ func parseAll(data []byte) (result, bool) {
 			}
 			hangs++
 			if i == 0 {
-				return result{kind: "hang"}, true
+				return result{kind: "hang"}, "same"
 			}
-			return first, false // a later run of the same bytes did not terminate
+			return first, "diff" // a later run of the same bytes did not terminate
 		}
 	}
 	return first, same
@@ -144,20 +159,43 @@ func prefixed(prefix, dump string) {
 	}
 }
 
+// which of the eight X.Validate() call sites of parser.go rejected the input, told from the reason of
+// the implementation's error (coverage counting only: no verdict depends on it). identifier and
+// stringIdentifier share their text; the error of stringIdentifier is positioned at a quote.
+func validateSite(r result, text []byte) string {
+	if r.kind != "err" {
+		return ""
+	}
+	reason := r.msg[strings.IndexByte(r.msg, 0)+1:]
+	for _, c := range [][2]string{
+		{"invalid identifier", "identifier"}, {"invalid object type", "objectType"}, {"invalid extended ID", "messageID-extended"},
+		{"invalid standard ID", "messageID-standard"}, {"invalid signal value type", "signalValueType"},
+		{"invalid environment variable type", "environmentVariableType"}, {"invalid attribute value type", "attributeValueType"},
+		{"invalid access type", "accessType"},
+	} {
+		if strings.HasPrefix(reason, c[0]) {
+			if c[1] == "identifier" && r.pos.Offset < len(text) && text[r.pos.Offset] == '"' {
+				return "stringIdentifier"
+			}
+			return c[1]
+		}
+	}
+	return ""
+}
+
 func emitCase(mode string, n int, text []byte, extra string, expected []dbc.Def, withExpected bool) {
 	fmt.Fprintf(w, "CASE %s %d t:%s%s\n", mode, n, hex.EncodeToString(text), extra)
 	if withExpected {
 		prefixed("X", dumpDefs(expected))
 	}
 	// the same bytes are parsed parseRuns times by fresh parsers; "same" = every run gave the outcome, the
-	// error position and the Defs() of the first one (behaviour that depends on map iteration order or
+	// error position, the error text (Error(), Reason()) and the Defs() of the first one (behaviour that depends on map iteration order or
 	// on other per-run state shows up only in some of the runs)
-	r1, allSame := parseAll(text)
-	same := "same"
-	if !allSame {
-		same = "diff"
-	}
+	r1, same := parseAll(text)
 	prefixed("A", r1.dump)
+	if site := validateSite(r1, text); site != "" {
+		fmt.Fprintf(w, "COV %s-validate-%s\n", mode, site)
+	}
 	switch r1.kind {
 	case "err":
 		fmt.Fprintf(w, "OUT err %x:%x:%x %s\n", r1.pos.Line, r1.pos.Column, r1.pos.Offset, same)
@@ -354,6 +392,55 @@ func insideCorruptions(g *gen, f *genFile, k int) []corruption {
 	return out
 }
 
+// a token that the parser hands to an X.Validate() (attribute value type, object type, access type,
+// env-var type, signal value type, message id, identifier, quoted attribute name) replaced by a
+// SCANNABLE token of the same lexical kind that the Validate rejects: the definition fails for sure,
+// with a positioned error and the preceding definitions.
+func invalidFor(g *gen, t *tok) string {
+	r := g.r
+	pick := func(xs ...string) string { return xs[r.Intn(len(xs))] }
+	badIdent := func(s string) string {
+		switch r.Intn(4) {
+		case 0:
+			return strings.Repeat("I", 129)
+		case 1:
+			return pick("\u00b5", "\u03a9", "\u00e9") + s // a letter for the scanner, not for Identifier.Validate
+		case 2:
+			return s + pick("\u00e9", "\u0416", "\u4e2d", "\u0663") // ... or a non-ASCII digit inside
+		default:
+			if len(s) > 120 {
+				s = s[:120]
+			}
+			return s + strings.Repeat("_", 129-len(s))
+		}
+	}
+	switch t.vclass {
+	case "attrtype":
+		return pick("INTEGER", "int", "Int", "ENUMS", "STR", "FLOAT_", "HEXA", "BO_", g.freshIdent())
+	case "objtype":
+		return pick("BU", "bo_", "Sg_", "EV__", "BO_TX_BU_", "VAL_", "CM_", g.freshIdent())
+	case "access":
+		return pick("DUMMY_NODE_VECTOR4", "DUMMY_NODE_VECTOR", "dummy_node_vector0", "DUMMY_NODE_VECTOR00", "DUMMY_NODE_VECTOR8000", g.freshIdent())
+	case "envtype", "sigvaltype":
+		return strconv.Itoa(3 + r.Intn(97))
+	case "msgid":
+		if r.Intn(2) == 0 { // standard format, above 0x7ff
+			return strconv.FormatUint(0x800+uint64(r.Int63n(0x80000000-0x800)), 10)
+		}
+		v := uint64(0x80000000) | (0x20000000 + uint64(r.Int63n(0x60000000)))
+		if v == 0xC0000000 { // the id of the independent signals pseudo message is valid
+			v++
+		}
+		return strconv.FormatUint(v, 10)
+	case "ident":
+		return badIdent(t.text)
+	case "strident":
+		name := t.text[1 : len(t.text)-1]
+		return `"` + pick("", "1"+name, name+" x", name+"-", name+"\u00e9", "\u00b5"+name, name+"\x7f", strings.Repeat("n", 129)) + `"`
+	}
+	return ""
+}
+
 func corruptions(g *gen, f *genFile, k int) []corruption {
 	d := f.defs[k]
 	if d.kind == "unknown" {
@@ -408,6 +495,16 @@ func corruptions(g *gen, f *genFile, k int) []corruption {
 			big = "-" + big
 		}
 		out = append(out, corruption{op: "oversized", text: splice(f.text, t.start, t.end, big)})
+	}
+	// one validated token per class present in the definition replaced by a scannable invalid one
+	seen := map[string]bool{}
+	for _, i := range g.r.Perm(len(d.toks)) {
+		t := &d.toks[i]
+		if i == 0 || t.vclass == "" || seen[t.vclass] {
+			continue
+		}
+		seen[t.vclass] = true
+		out = append(out, corruption{op: "invalid-" + t.vclass, text: splice(f.text, t.start, t.end, invalidFor(g, t))})
 	}
 	// the keyword itself replaced by a character that starts no definition
 	out = append(out, corruption{op: "illegal-keyword", text: splice(f.text, d.toks[0].start, d.toks[0].end, "$")})
